@@ -67,14 +67,38 @@ def build_driver(src, rp, workdir):
     return binp
 
 
+_cache = {}
+_cache_lock = __import__('threading').Lock()
+
+
+def _cleanup():
+    for v in _cache.values():
+        if v[1]:
+            shutil.rmtree(v[1], ignore_errors=True)
+
+
+__import__('atexit').register(_cleanup)
+
+
+def cached_driver(src, rp):
+    key = (src, rp.driver, tuple(rp.sources))
+    with _cache_lock:
+        if key not in _cache:
+            wd = tempfile.mkdtemp(prefix='verif-replay-')
+            try:
+                _cache[key] = (build_driver(src, rp, wd), wd, None)
+            except RuntimeError as e:
+                shutil.rmtree(wd, ignore_errors=True)
+                _cache[key] = (None, None, str(e))
+        return _cache[key]
+
+
 def run_driver(src, rp, args):
     """Returns dict(reproduced, rc, output)."""
-    wd = tempfile.mkdtemp(prefix='verif-replay-')
     try:
-        try:
-            binp = build_driver(src, rp, wd)
-        except RuntimeError as e:
-            return {'reproduced': False, 'rc': None, 'output': str(e)}
+        binp, _, err = cached_driver(src, rp)
+        if binp is None:
+            return {'reproduced': False, 'rc': None, 'output': err}
         env = dict(os.environ, ASAN_OPTIONS='detect_leaks=0:abort_on_error=0', UBSAN_OPTIONS='print_stacktrace=0')
         try:
             p = subprocess.run([binp, rp.mode] + rp.extra + args, capture_output=True, text=True, timeout=120, env=env,
@@ -86,7 +110,7 @@ def run_driver(src, rp, args):
         rep = rc == 1 or (rc not in (0, 1, 2) and ('AddressSanitizer' in out or 'runtime error' in out))
         return {'reproduced': rep, 'rc': rc, 'output': out}
     finally:
-        shutil.rmtree(wd, ignore_errors=True)
+        pass
 
 
 def attempt(ctx, g):
